@@ -1,0 +1,44 @@
+//go:build verif
+
+package storage
+
+import (
+	"github.com/diiyw/nodis/ds"
+)
+
+// VerifEntry is one raw storage entry.
+type VerifEntry struct {
+	EncKey string   // the key under which the entry is filed
+	Key    *ds.Key  // Memory: the key object held by the entry (current fields)
+	Value  ds.Value // Memory: the value object held by the entry
+	Bytes  []byte   // Pebble: the stored bytes
+}
+
+// VerifEntries lists the raw entries of the in-memory backend in key order.
+func (m *Memory) VerifEntries() []VerifEntry {
+	m.RLock()
+	defer m.RUnlock()
+	var out []VerifEntry
+	m.data.Scan(func(k string, kv KeyValue) bool {
+		out = append(out, VerifEntry{EncKey: k, Key: kv.key, Value: kv.value})
+		return true
+	})
+	return out
+}
+
+// VerifEntries lists the raw entries of the Pebble backend in key order.
+func (p *Pebble) VerifEntries() []VerifEntry {
+	var out []VerifEntry
+	iter, err := p.db.NewIter(nil)
+	if err != nil {
+		return nil
+	}
+	defer iter.Close()
+	for iter.First(); iter.Valid(); iter.Next() {
+		out = append(out, VerifEntry{
+			EncKey: string(append([]byte(nil), iter.Key()...)),
+			Bytes:  append([]byte(nil), iter.Value()...),
+		})
+	}
+	return out
+}
